@@ -217,7 +217,7 @@ def c10(chk):
     repo_tests(chk)
 
 
-CTX_FLOATS = [[16368, 0, 0, 0], [16384, 0, 0, 0], [16376, 0, 0, 0], [16388, 0, 0, 0]]
+CTX_FLOATS = [[16368, 0, 0, 0], [16384, 0, 0, 0], [16376, 0, 0, 0], [16388, 0, 0, 0], [0, 0, 0, 0], [32768, 0, 0, 0]]
 CTX_PROPS = ("TypeStable", "FailedCallAtomic", "CloneIndependent", "NamespacesSeparate")
 
 
@@ -228,7 +228,7 @@ def ctx_model(chk, size, relevant, simulate=None, workers=12, timeout=1500):
                               invariants=("TypeOK",), properties=CTX_PROPS, view="View", constraint="InDomain",
                               workers=workers, timeout=timeout, env_extra={"PRIMS": prims}, simulate=simulate)
     ops = ["set_value", "eval", "get_value", "clear_variables", "clear_functions", "clear", "set_function", "set_builtins"]
-    if size != "names2":
+    if size not in ("names2", "zeros"):
         ops.append("clone")
     chk.add_model(info, summ, relevant, ["history_len2"], exhaustive=simulate is None,
                   must_occur=[f"history_last_{o}" for o in ops],
@@ -243,9 +243,11 @@ def c04(chk):
     if chk.tier == "quick":
         ctx_model(chk, "small", {"history", "panic"})
         ctx_model(chk, "names2", {"history", "panic"})
+        ctx_model(chk, "zeros", {"history", "panic"})
     else:
         ctx_model(chk, "small", {"history", "panic"}, workers=16)
         ctx_model(chk, "names2", {"history", "panic"}, workers=16, timeout=3000)
+        ctx_model(chk, "zeros", {"history", "panic"}, workers=16)
     chk.add_traces("trace_macros", "macros", 1, 1, "trace_macros",
                    note="the context_map! and math_consts_context! macros (six invocations: every value kind, functions, repeated keys, "
                         "a type conflict in the middle, the empty map): every entry is applied in order, the first error is returned")
@@ -255,9 +257,15 @@ def c04(chk):
     repo_tests(chk)
 
 
-PROG_FLOATS = [[0, 0, 0, 0], [16368, 0, 0, 0], [16384, 0, 0, 0], [16392, 0, 0, 0], [16400, 0, 0, 0], [16404, 0, 0, 0],
-               [16408, 0, 0, 0], [16412, 0, 0, 0], [16416, 0, 0, 0], [16352, 0, 0, 0], [16376, 0, 0, 0],
-               [49136, 0, 0, 0], [49152, 0, 0, 0], [49160, 0, 0, 0], [49168, 0, 0, 0], [16420, 0, 0, 0], [16424, 0, 0, 0]]
+def _float_words(x):
+    import struct
+    b = struct.unpack(">Q", struct.pack(">d", x))[0]
+    return [(b >> 48) & 0xffff, (b >> 32) & 0xffff, (b >> 16) & 0xffff, b & 0xffff]
+
+
+# the doubles the small programs of MC_Prog / MC_Resolve / MC_Ctx can compute: every multiple of 0.5 in [-8, 20]
+# (integer atoms 0, 1, 2, 7 and the literal 1.5 under + * ^ / with at most four atoms), closed enough for depth 3
+PROG_FLOATS = [_float_words(k / 2.0) for k in range(-16, 41)] + [_float_words(x) for x in (0.25, 0.125, 27.0, 49.0, 64.0, 81.0, 256.0)]
 
 
 def prog_model(chk, family, depth, relevant, nontrivial, workers=12, timeout=1500):
@@ -373,12 +381,12 @@ def c06(chk):
 
 
 def c07(chk):
-    chk.rule = ("every token sequence up to the length bound over a 14-token alphabet (words, a string, the characters of "
+    chk.rule = ("every token sequence up to the length bound over a 15-token alphabet (words, a decimal word beyond i64, a string, the characters of "
                 "compound operators, / and *) x every assignment of separators (whitespace characters, block and line "
                 "comments, nothing) to the gaps; cases = the admissible assignments (no fusion by the syntactic rule); "
                 "non-trivial = distinct (sequence, assignment) pairs")
     import itertools
-    pieces = ["1", "3", "x", "2e", "+", "-"]      # fused neighbours of inadmissible assignments also reach the lexer of the spec
+    pieces = ["1", "3", "x", "2e", "+", "-", "9223372036854775808"]      # fused neighbours of inadmissible assignments also reach the lexer of the spec
     cands = {"".join(t) for n in range(1, 6) for t in itertools.product(pieces, repeat=n)}
     prims = vf.make_prims("sep", chk.outdir, extra={"words": [[ord(c) for c in w] for w in sorted(cands)]})
     if chk.tier == "quick":
